@@ -21,7 +21,14 @@
    component of a program is one instance of that generated template.  An op is a record
    [k, n, a, b]:  L n  literal of n bytes | E n  expression of n bytes | leaf n  hand-written
    component | call a | cb a b  (@a { @b }) | slot  ({ children... }) | flush a  (@templ.Flush() { @a })
-   | join a b  (@templ.Join(a, b)); "kids"/"bflush" are the two steps of templ.Flush.
+   | join a b  (@templ.Join(a, b)) | hcb n a  (@hand { @a } where hand is a HAND-WRITTEN component that
+   renders templ.GetChildren(ctx): n = 0 into the writer it was given, n = 1 into a writer of its own
+   -- a collector that may fail -- and then forwards what that writer received);
+   "kids"/"bflush" are the two steps of templ.Flush, "okids"/"fwd" those of the collecting component.
+
+   Every frame knows the io.Writer it was called with (a *runtime.Buffer of the render, or a plain
+   writer): a generated block closure that is handed a plain writer acquires, flushes and releases a
+   pooled buffer of its own, nested inside the render that holds another one.
 
    Bytes are one-character strings, so `sink` is literally the expected output.               *)
 EXTENDS Integers, Sequences, FiniteSets, TLC, Json
@@ -29,6 +36,8 @@ EXTENDS Integers, Sequences, FiniteSets, TLC, Json
 CONSTANTS Caps,        \* buffer capacities explored (runtime.DefaultBufferSize)
           ProgSet,     \* programs explored (MC: every program of the grammar up to MaxOps/MaxDepth)
           MaxOps, MaxDepth, LitSizes, ExprSizes, LeafSizes,
+          HandKinds,   \* hand-written callees of a call with block: subset of {0, 1} (see hcb above)
+          SideKs,      \* offsets at which the collecting component's own writer fails
           Runs,        \* renders per behaviour: all but the last must be given a fault, the last none (Runs > 1)
           Modes,       \* writer fault modes
           Pairs,       \* TRUE: also plans with a writer fault AND a failing expression / leaf
@@ -41,7 +50,7 @@ VARIABLES cfg,        \* [cap, sw, prog, doc, nev, nleaf] -- fixed per behaviour
           run, phase, plan,
           stack,      \* frames of the components being rendered, innermost last
           ret,        \* error returned by the call that just finished ("nil" = nil)
-          bufs, cur, pool, nfresh,   \* runtime.Buffer objects, the one this render uses (0 = none), sync.Pool
+          bufs, cur, pool, nfresh,   \* runtime.Buffer objects, the SET of those held by frames of this render, sync.Pool
           W,          \* per writer: bytes accepted, failed?, sink length at each http.Flusher.Flush
           slot,       \* the children slot of the render's context value
           cancelled, evals, leafs,
@@ -68,12 +77,20 @@ OpsOfSize(d, s) ==
     ELSE IF d <= 1 THEN {}
     ELSE {Op("call", 0, a, Nil) : a \in Seqs(d - 1, s - 1)}
          \cup {Op("flush", 0, a, Nil) : a \in Seqs(d - 1, s - 1)}
+         \cup {Op("hcb", n, a, Nil) : n \in HandKinds, a \in Seqs(d - 1, s - 1)}
          \cup UNION {{Op("cb", 0, a, b) : a \in Seqs(d - 1, i), b \in Seqs(d - 1, s - 1 - i)} : i \in 1..(s - 2)}
          \cup UNION {{Op("join", 0, a, b) : a \in Seqs(d - 1, i), b \in Seqs(d - 1, s - 1 - i)} : i \in 1..(s - 2)}
 \* all op sequences of total size exactly n and nesting depth <= d
 Seqs(d, n) == IF n = 0 THEN {Nil}
               ELSE UNION {{<<o>> \o r : o \in OpsOfSize(d, s), r \in Seqs(d, n - s)} : s \in 1..n}
-GrammarProgs == UNION {Seqs(MaxDepth, n) : n \in 1..MaxOps}
+\* the collecting component has ONE writer of its own per render in this model: no collector inside a collected block
+RECURSIVE HasOwn(_)
+HasOwn(ops) == \E i \in 1..Len(ops) : (ops[i].k = "hcb" /\ ops[i].n = 1) \/ HasOwn(ops[i].a) \/ HasOwn(ops[i].b)
+RECURSIVE NoNestedOwn(_)
+NoNestedOwn(ops) == \A i \in 1..Len(ops) :
+                       /\ (ops[i].k = "hcb" /\ ops[i].n = 1) => ~HasOwn(ops[i].a)
+                       /\ NoNestedOwn(ops[i].a) /\ NoNestedOwn(ops[i].b)
+GrammarProgs == {p \in UNION {Seqs(MaxDepth, n) : n \in 1..MaxOps} : NoNestedOwn(p)}
 
 Chars == <<"a", "b", "c", "d", "e", "f", "g", "h", "i", "j", "k">>
 LitText(n) == CASE n = 1 -> SubSeq(Chars, 1, 1) [] n = 2 -> SubSeq(Chars, 2, 3)
@@ -102,6 +119,7 @@ DOps(ops, mine, s) ==
                     [] o.k = "cb"   -> DInterp(o.a, Block(o.b))
                     [] o.k = "slot" -> IF mine.has THEN DInterp(mine.body, s) ELSE DEmpty(s)
                     [] o.k = "flush" -> DInterp(o.a, NoChild)
+                    [] o.k = "hcb"  -> DInterp(o.a, NoChild)      \* both hand-written callees take the block out of the slot
                     [] o.k = "join" -> LET x == DInterp(o.a, s) IN DThen(x, DInterp(o.b, x.slot))
          IN DThen(h, DOps(Tail(ops), mine, h.slot))
 Denote(p) == DInterp(p, NoChild)
@@ -118,27 +136,32 @@ MaxWrite(ops) == IF ops = <<>> THEN 0
 (* fault plans *)
 NoW == [k |-> -1, m |-> "none"]
 NoL == [k |-> "none", j |-> 0]
+NoS == [k |-> -1, m |-> "none"]                      \* fault of the collecting component's own writer
+SFaults == {[k |-> k, m |-> "err"] : k \in SideKs}
 WFaults(n) == {[k |-> k, m |-> m] : k \in 0..(n - 1), m \in Modes} \cup {[k |-> n, m |-> "err"]}
 LFails(c) == {[k |-> "expr", j |-> j] : j \in 1..c.nev} \cup {[k |-> "leaf", j |-> j] : j \in 1..c.nleaf}
 LFaults(c) == LFails(c) \cup {[k |-> "cancel", j |-> 0]} \cup {[k |-> "cancelat", j |-> j] : j \in 1..c.nev}
-FaultPlans(c) == {[w |-> w, l |-> NoL] : w \in WFaults(Len(c.doc))}
-                 \cup {[w |-> NoW, l |-> l] : l \in LFaults(c)}
-                 \cup (IF Pairs THEN {[w |-> w, l |-> l] : w \in WFaults(Len(c.doc)), l \in LFails(c)} ELSE {})
-NoPlan == [w |-> NoW, l |-> NoL]
+FaultPlans(c) == {[w |-> w, l |-> NoL, s |-> NoS] : w \in WFaults(Len(c.doc))}
+                 \cup {[w |-> NoW, l |-> l, s |-> NoS] : l \in LFaults(c)}
+                 \cup (IF Pairs THEN {[w |-> w, l |-> l, s |-> NoS] : w \in WFaults(Len(c.doc)), l \in LFails(c)} ELSE {})
+                 \cup (IF HasOwn(c.prog) THEN {[w |-> NoW, l |-> NoL, s |-> f] : f \in SFaults} ELSE {})
+NoPlan == [w |-> NoW, l |-> NoL, s |-> NoS]
 
 -----------------------------------------------------------------------------
 (* the underlying writer and bufio.Writer *)
 CleanBuf(w) == [data |-> <<>>, err |-> "nil", wr |-> w]
-NewW == [sink |-> <<>>, dead |-> FALSE, uf |-> <<>>]
+NewW == [sink |-> <<>>, dead |-> FALSE, uf |-> <<>>, side |-> FALSE]
+NewSideW == [sink |-> <<>>, dead |-> FALSE, uf |-> <<>>, side |-> TRUE]
 
 \* one Write/WriteString call on writer state ws under writer-fault f
+InjName(ws) == IF ws.side THEN "sinj" ELSE "inj"     \* the two writers fail with different errors
 UW(ws, chunk, f) ==
-    IF ws.dead THEN [ws |-> ws, n |-> 0, err |-> "inj"]
+    IF ws.dead THEN [ws |-> ws, n |-> 0, err |-> InjName(ws)]
     ELSE IF f.m = "none" \/ Len(ws.sink) + Len(chunk) <= f.k
          THEN [ws |-> [ws EXCEPT !.sink = @ \o chunk], n |-> Len(chunk), err |-> "nil"]
     ELSE LET room == f.k - Len(ws.sink)
              part == [ws EXCEPT !.sink = @ \o SubSeq(chunk, 1, room), !.dead = TRUE]
-         IN CASE f.m = "err"   -> [ws |-> part, n |-> room, err |-> "inj"]
+         IN CASE f.m = "err"   -> [ws |-> part, n |-> room, err |-> InjName(ws)]
               [] f.m = "short" -> [ws |-> part, n |-> room, err |-> "nil"]
               [] f.m = "zero"  -> [ws |-> [ws EXCEPT !.dead = TRUE], n |-> 0, err |-> "nil"]
 
@@ -168,13 +191,24 @@ BW(bs, ws, s, direct, cap, f) ==
 
 -----------------------------------------------------------------------------
 (* frames *)
-Frame(chk, acq, ops) == [pc |-> IF chk THEN "ctx" ELSE IF acq THEN "acq" ELSE "ops",
-                         chk |-> chk, acq |-> acq, ops |-> ops, mine |-> NoChild,
-                         owns |-> FALSE, err |-> "nil", be |-> "nil"]
-InterpFrame(ops) == Frame(TRUE, TRUE, ops)                                    \* an instance of the generated template
-BlockFrame(body) == Frame(FALSE, TRUE, <<Op("call", 0, body, Nil)>>)          \* the generated closure of a { ... } block
-JoinFrame(a, b)  == Frame(FALSE, FALSE, <<Op("call", 0, a, Nil), Op("call", 0, b, Nil)>>)
-FlushFrame       == Frame(FALSE, FALSE, <<Op("kids", 0, Nil, Nil), Op("bflush", 0, Nil, Nil)>>)
+\* a writer reference: a *runtime.Buffer object (t = "buf") or a plain io.Writer (t = "w")
+BufRef(b) == [t |-> "buf", id |-> b]
+WRef(w) == [t |-> "w", id |-> w]
+SideW == Runs + 1                      \* the collecting component's own writer
+NBufs == 2 * Runs + 2                  \* buffer objects that can exist (renders and blocks rendered into the side writer may each make new ones)
+
+\* wr = the writer the component was called with; fb = the buffer it writes to (after GetBuffer)
+Frame(chk, acq, ops, wr) == [pc |-> IF chk THEN "ctx" ELSE IF acq THEN "acq" ELSE "ops",
+                             chk |-> chk, acq |-> acq, ops |-> ops, mine |-> NoChild, wr |-> wr,
+                             fb |-> IF acq THEN 0 ELSE wr.id,
+                             owns |-> FALSE, err |-> "nil", be |-> "nil"]
+InterpFrame(ops, wr) == Frame(TRUE, TRUE, ops, wr)                            \* an instance of the generated template
+BlockFrame(body, wr) == Frame(FALSE, TRUE, <<Op("call", 0, body, Nil)>>, wr)  \* the generated closure of a { ... } block
+JoinFrame(a, b, wr)  == Frame(FALSE, FALSE, <<Op("call", 0, a, Nil), Op("call", 0, b, Nil)>>, wr)
+FlushFrame(wr)       == Frame(FALSE, FALSE, <<Op("kids", 0, Nil, Nil), Op("bflush", 0, Nil, Nil)>>, wr)
+\* hand-written callees of a call with block (always called with the caller's buffer)
+PassFrame(wr)        == Frame(FALSE, FALSE, <<Op("kids", 0, Nil, Nil)>>, wr)
+CollectFrame(wr)     == Frame(FALSE, FALSE, <<Op("okids", 0, Nil, Nil), Op("fwd", 0, Nil, Nil)>>, wr)
 
 Top == stack[Len(stack)]
 SetTop(f) == [stack EXCEPT ![Len(stack)] = f]
@@ -183,7 +217,9 @@ Pop == SubSeq(stack, 1, Len(stack) - 1)
 
 \* the fault applies to this render's writer only; a buffer that (through a bug) still points at an
 \* older writer writes there unhindered
-FaultOf(w) == IF w = run THEN plan.w ELSE NoW
+FaultOf(w) == IF w = run THEN plan.w ELSE IF w = SideW THEN plan.s ELSE NoW
+\* what the top frame passes on as io.Writer: the buffer it writes to
+Down == BufRef(Top.fb)
 First(e) == IF first = "nil" THEN e ELSE first
 
 -----------------------------------------------------------------------------
@@ -193,8 +229,8 @@ Init == /\ \E cap \in Caps, p \in ProgSet :
                 cfg = [cap |-> cap, sw |-> sw, prog |-> p, doc |-> d.out, nev |-> d.ne, nleaf |-> d.nl]
         /\ run = 1 /\ phase = "pick" /\ plan = NoPlan
         /\ stack = <<>> /\ ret = "nil"
-        /\ bufs = [i \in 1..Runs |-> CleanBuf(0)] /\ cur = 0 /\ pool = {} /\ nfresh = 0
-        /\ W = [i \in 1..Runs |-> NewW]
+        /\ bufs = [i \in 1..NBufs |-> CleanBuf(0)] /\ cur = {} /\ pool = {} /\ nfresh = 0
+        /\ W = [i \in 1..(Runs + 1) |-> IF i = SideW THEN NewSideW ELSE NewW]
         /\ slot = NoChild /\ cancelled = FALSE /\ evals = 0 /\ leafs = 0
         /\ first = "nil" /\ late = FALSE /\ pev = <<>> /\ hist = <<>>
         /\ lbl = "Init"
@@ -209,7 +245,7 @@ StartRender ==
           /\ plan' = p
           /\ cancelled' = (p.l.k = "cancel")
     /\ phase' = "run"
-    /\ stack' = <<InterpFrame(cfg.prog)>>
+    /\ stack' = <<InterpFrame(cfg.prog, WRef(run))>>
     /\ ret' = "nil" /\ slot' = NoChild /\ evals' = 0 /\ leafs' = 0 /\ first' = "nil" /\ late' = FALSE
     /\ pev' = <<>>
     /\ lbl' = "StartRender"
@@ -229,16 +265,18 @@ CtxCheck ==
 \* templruntime.GetBuffer(w): the writer is already a *Buffer (nested component) or a pooled/new one is Reset
 AcquireBuffer ==
     /\ Running /\ Top.pc = "acq"
-    /\ IF cur # 0
-       THEN /\ stack' = SetTop([Top EXCEPT !.pc = "acquired"])
+    /\ IF Top.wr.t = "buf"
+       THEN /\ stack' = SetTop([Top EXCEPT !.pc = "acquired", !.fb = Top.wr.id])
             /\ UNCH(<<bufs, cur, pool, nfresh>>)
-       ELSE \E b \in (IF PoolAny \/ pool = {} THEN pool \cup {nfresh + 1} ELSE pool) :
+       ELSE \E b \in (IF PoolAny \/ pool = {} THEN pool \cup (IF nfresh < NBufs THEN {nfresh + 1} ELSE {}) ELSE pool) :
             LET fresh == b = nfresh + 1 IN
-            /\ bufs' = [bufs EXCEPT ![b] = IF fresh \/ Bug # "noreset" THEN CleanBuf(run) ELSE @]
-            /\ cur' = b /\ pool' = pool \ {b}
+            /\ bufs' = [bufs EXCEPT ![b] = IF fresh \/ Bug # "noreset" THEN CleanBuf(Top.wr.id) ELSE @]
+            /\ cur' = cur \cup {b} /\ pool' = pool \ {b}
             /\ nfresh' = IF fresh THEN nfresh + 1 ELSE nfresh
-            /\ stack' = SetTop([Top EXCEPT !.pc = "acquired", !.owns = TRUE])
-    /\ pev' = Append(pev, IF cur # 0 THEN "existing" ELSE "acquire")
+            \* "blocknorelease": the closure of a block has no deferred release (it never owns what it acquired)
+            /\ stack' = SetTop([Top EXCEPT !.pc = "acquired", !.fb = b,
+                                            !.owns = ~(Bug = "blocknorelease" /\ ~Top.chk)])
+    /\ pev' = Append(pev, IF Top.wr.t = "buf" THEN "existing" ELSE "acquire")
     /\ lbl' = "AcquireBuffer"
     /\ UNCH(<<cfg, run, phase, plan, ret, W, slot, cancelled, evals, leafs, first, late, hist>>)
 
@@ -257,9 +295,9 @@ Advance(f) == [f EXCEPT !.ops = Tail(@)]
 Fail(f, e) == [f EXCEPT !.pc = "exit", !.err = e]
 
 \* a write through the render's buffer; result r = [bs, ws, err]
-DoWrite(text, direct) == BW(bufs[cur], W[bufs[cur].wr], text, direct, cfg.cap, FaultOf(bufs[cur].wr))
-ApplyWrite(r) == /\ bufs' = [bufs EXCEPT ![cur] = r.bs]
-                 /\ W' = [W EXCEPT ![bufs[cur].wr] = r.ws]
+DoWrite(text, direct) == BW(bufs[Top.fb], W[bufs[Top.fb].wr], text, direct, cfg.cap, FaultOf(bufs[Top.fb].wr))
+ApplyWrite(r) == /\ bufs' = [bufs EXCEPT ![Top.fb] = r.bs]
+                 /\ W' = [W EXCEPT ![bufs[Top.fb].wr] = r.ws]
 
 \* templruntime.WriteString(buffer, i, "literal"); if err != nil { return err }
 WriteLit ==
@@ -312,10 +350,12 @@ CallLeaf ==
 
 \* err = c.Render(ctx, buffer)   /   c.Render(templ.WithChildren(ctx, block), buffer)
 EnterCall ==
-    /\ \/ /\ AtOp("call") /\ stack' = Push([Top EXCEPT !.pc = "ret"], InterpFrame(O.a)) /\ UNCH(slot)
-       \/ /\ AtOp("cb") /\ stack' = Push([Top EXCEPT !.pc = "ret"], InterpFrame(O.a)) /\ slot' = Block(O.b)
-       \/ /\ AtOp("flush") /\ stack' = Push([Top EXCEPT !.pc = "ret"], FlushFrame) /\ slot' = Block(O.a)
-       \/ /\ AtOp("join") /\ stack' = Push([Top EXCEPT !.pc = "ret"], JoinFrame(O.a, O.b)) /\ UNCH(slot)
+    /\ \/ /\ AtOp("call") /\ stack' = Push([Top EXCEPT !.pc = "ret"], InterpFrame(O.a, Down)) /\ UNCH(slot)
+       \/ /\ AtOp("cb") /\ stack' = Push([Top EXCEPT !.pc = "ret"], InterpFrame(O.a, Down)) /\ slot' = Block(O.b)
+       \/ /\ AtOp("flush") /\ stack' = Push([Top EXCEPT !.pc = "ret"], FlushFrame(Down)) /\ slot' = Block(O.a)
+       \/ /\ AtOp("join") /\ stack' = Push([Top EXCEPT !.pc = "ret"], JoinFrame(O.a, O.b, Down)) /\ UNCH(slot)
+       \/ /\ AtOp("hcb") /\ slot' = Block(O.a)
+          /\ stack' = Push([Top EXCEPT !.pc = "ret"], IF O.n = 0 THEN PassFrame(Down) ELSE CollectFrame(Down))
     /\ ret' = "nil"
     /\ lbl' = "EnterCall"
     /\ UNCH(<<pev, cfg, run, phase, plan, bufs, cur, pool, nfresh, W, cancelled, evals, leafs, first, late, hist>>)
@@ -324,20 +364,24 @@ EnterCall ==
 \* templ.Flush takes templ.GetChildren(ctx) out of the context value (read, then ClearChildren) and renders it
 RenderChildren ==
     /\ \/ /\ AtOp("slot")
-          /\ IF Top.mine.has THEN stack' = Push([Top EXCEPT !.pc = "ret"], BlockFrame(Top.mine.body))
+          /\ IF Top.mine.has THEN stack' = Push([Top EXCEPT !.pc = "ret"], BlockFrame(Top.mine.body, Down))
                              ELSE stack' = SetTop([Top EXCEPT !.pc = "ret"])
-          /\ UNCH(slot)
-       \/ /\ AtOp("kids")
-          /\ IF slot.has THEN stack' = Push([Top EXCEPT !.pc = "ret"], BlockFrame(slot.body))
+          /\ UNCH(<<slot, W>>)
+       \/ /\ AtOp("kids")                       \* templ.Flush / the pass-through component: children into the given writer
+          /\ IF slot.has THEN stack' = Push([Top EXCEPT !.pc = "ret"], BlockFrame(slot.body, Down))
                          ELSE stack' = SetTop([Top EXCEPT !.pc = "ret"])
-          /\ slot' = NoChild
+          /\ slot' = NoChild /\ UNCH(W)
+       \/ /\ AtOp("okids")                      \* the collecting component: children into a new writer of its own
+          /\ IF slot.has THEN stack' = Push([Top EXCEPT !.pc = "ret"], BlockFrame(slot.body, WRef(SideW)))
+                         ELSE stack' = SetTop([Top EXCEPT !.pc = "ret"])
+          /\ slot' = NoChild /\ W' = [W EXCEPT ![SideW] = NewSideW]
     /\ ret' = "nil"
     /\ lbl' = "RenderChildren"
-    /\ UNCH(<<pev, cfg, run, phase, plan, bufs, cur, pool, nfresh, W, cancelled, evals, leafs, first, late, hist>>)
+    /\ UNCH(<<pev, cfg, run, phase, plan, bufs, cur, pool, nfresh, cancelled, evals, leafs, first, late, hist>>)
 
 \* runtime.Buffer.Flush on the render's buffer, then http.Flusher.Flush of the underlying writer
-RuntimeFlush == LET w == bufs[cur].wr
-                    r == BFlush(bufs[cur], W[w], FaultOf(w))
+RuntimeFlush == LET w == bufs[Top.fb].wr
+                    r == BFlush(bufs[Top.fb], W[w], FaultOf(w))
                 IN [bs |-> r.bs, err |-> r.err, w |-> w,
                     ws |-> IF r.err = "nil" THEN [r.ws EXCEPT !.uf = Append(@, Len(r.ws.sink))] ELSE r.ws]
 
@@ -345,11 +389,21 @@ RuntimeFlush == LET w == bufs[cur].wr
 FlushOp ==
     /\ AtOp("bflush")
     /\ LET r == RuntimeFlush IN
-       /\ bufs' = [bufs EXCEPT ![cur] = r.bs]
+       /\ bufs' = [bufs EXCEPT ![Top.fb] = r.bs]
        /\ W' = [W EXCEPT ![r.w] = r.ws]
        /\ IF r.err # "nil" THEN stack' = SetTop(Fail(Top, r.err)) ELSE stack' = SetTop(Advance(Top))
        /\ first' = IF r.err # "nil" THEN First(r.err) ELSE first
     /\ lbl' = "FlushOp"
+    /\ UNCH(<<pev, cfg, run, phase, plan, ret, cur, pool, nfresh, slot, cancelled, evals, leafs, late, hist>>)
+
+\* the collecting component forwards what its own writer received: w.Write(collected)
+Forward ==
+    /\ AtOp("fwd")
+    /\ LET r == DoWrite(W[SideW].sink, TRUE) IN
+       /\ ApplyWrite(r)
+       /\ IF r.err # "nil" THEN stack' = SetTop(Fail(Top, r.err)) ELSE stack' = SetTop(Advance(Top))
+       /\ first' = IF r.err # "nil" THEN First(r.err) ELSE first
+    /\ lbl' = "Forward"
     /\ UNCH(<<pev, cfg, run, phase, plan, ret, cur, pool, nfresh, slot, cancelled, evals, leafs, late, hist>>)
 
 \* if err != nil { return err }  after a call
@@ -382,7 +436,7 @@ Exit ==
 DeferredFlush ==
     /\ Running /\ Top.pc = "release"
     /\ LET r == RuntimeFlush IN
-       /\ bufs' = [bufs EXCEPT ![cur] = r.bs]
+       /\ bufs' = [bufs EXCEPT ![Top.fb] = r.bs]
        /\ W' = [W EXCEPT ![r.w] = r.ws]
        /\ stack' = SetTop([Top EXCEPT !.pc = "put", !.be = r.err])
        /\ first' = IF r.err # "nil" THEN First(r.err) ELSE first
@@ -393,7 +447,7 @@ DeferredFlush ==
 \* second half: bufferPool.Put(b); then the deferred func adopts the flush error iff none is set
 DeferredPut ==
     /\ Running /\ Top.pc = "put"
-    /\ pool' = pool \cup {cur} /\ cur' = 0
+    /\ pool' = pool \cup {Top.fb} /\ cur' = cur \ {Top.fb}
     /\ ret' = CASE Bug = "dropflusherr" -> Top.err
                 [] Bug = "alwaysadopt"  -> Top.be
                 [] OTHER -> IF Top.err = "nil" THEN Top.be ELSE Top.err
@@ -405,14 +459,14 @@ DeferredPut ==
 \* Render has returned to the caller
 EndRender ==
     /\ phase = "run" /\ stack = <<>>
-    /\ hist' = Append(hist, [plan |-> plan, res |-> ret, sink |-> W[run].sink, fired |-> W[run].dead,
+    /\ hist' = Append(hist, [plan |-> plan, res |-> ret, sink |-> W[run].sink, fired |-> W[run].dead, sfired |-> W[SideW].dead, left |-> Cardinality(cur),
                              uf |-> W[run].uf, pev |-> pev, evals |-> evals, leafs |-> leafs, first |-> first])
     /\ IF run = Runs THEN phase' = "done" /\ UNCH(run) ELSE phase' = "pick" /\ run' = run + 1
     /\ lbl' = "EndRender"
     /\ UNCH(<<pev, cfg, plan, stack, ret, bufs, cur, pool, nfresh, W, slot, cancelled, evals, leafs, first, late>>)
 
 Next == \/ StartRender \/ CtxCheck \/ AcquireBuffer \/ ReadChildren \/ WriteLit \/ EvalExpr \/ WriteExpr
-        \/ CallLeaf \/ EnterCall \/ RenderChildren \/ FlushOp \/ ReturnCall \/ ReturnNil \/ Exit
+        \/ CallLeaf \/ EnterCall \/ RenderChildren \/ FlushOp \/ Forward \/ ReturnCall \/ ReturnNil \/ Exit
         \/ DeferredFlush \/ DeferredPut \/ EndRender
 
 Spec == Init /\ [][Next]_vars
@@ -434,7 +488,9 @@ NilMeansComplete == \A i \in 1..Len(hist) : hist[i].res = "nil" => hist[i].sink 
 FaultMeansError == \A i \in 1..Len(hist) : LET h == hist[i] IN
                       /\ (h.fired \/ LFired(h)) => h.res # "nil"
                       /\ h.res = h.first                      \* the cause is the first error produced
-                      /\ h.res \in {"nil", "inj", "short", "expr", "comp", "ctx"}
+                      /\ h.sfired => h.res # "nil"
+                      /\ h.res \in {"nil", "inj", "short", "expr", "comp", "ctx", "sinj"}
+                      /\ h.res = "sinj" => h.sfired
                       /\ h.res \in {"inj", "short"} => h.fired
                       /\ h.res = "expr" => h.plan.l.k = "expr"
                       /\ h.res = "comp" => h.plan.l.k = "leaf"
@@ -446,21 +502,24 @@ LaterRendersUnaffected == \A i \in 1..Len(hist) :
 
 \* at acquisition the buffer is empty, has no error and writes to this render's writer
 NoCarryOver == (Running /\ Top.pc = "acquired" /\ Top.owns) =>
-                   bufs[cur] = CleanBuf(run)
+                   bufs[Top.fb] = CleanBuf(Top.wr.id)
 
 \* exactly one frame -- the outermost -- owns the buffer and releases it; nobody holds a pooled buffer
 OneOwnerFlushes ==
-    /\ cur \notin pool
-    /\ (phase = "run" /\ cur # 0) => /\ stack # <<>> /\ stack[1].owns
-                                     /\ \A i \in 2..Len(stack) : ~stack[i].owns
-    /\ (phase = "run" /\ cur = 0) => \A i \in 1..Len(stack) : ~stack[i].owns
-    /\ phase # "run" => cur = 0
+    /\ cur \cap pool = {}
+    \* every held buffer has exactly one owning frame (the one that acquired it, which will flush and release it)
+    /\ phase = "run" => /\ \A b \in cur : Cardinality({i \in 1..Len(stack) : stack[i].owns /\ stack[i].fb = b}) = 1
+                        /\ \A i \in 1..Len(stack) : stack[i].owns => stack[i].fb \in cur
+                        \* the render's own buffer belongs to the outermost frame
+                        /\ \A i \in 2..Len(stack) : stack[i].owns => stack[i].wr.t = "w"
+    \* when Render has returned nothing is held any more
+    /\ phase # "run" => cur = {}
 
 \* nothing is evaluated after an error has been produced
 FailStop == ~late
 
 TypeOK == /\ run \in 1..Runs /\ phase \in {"pick", "run", "done"}
-          /\ cur \in 0..Runs /\ pool \subseteq 1..Runs
+          /\ cur \subseteq 1..NBufs /\ pool \subseteq 1..NBufs
           /\ Len(stack) <= 24
 
 (* every terminal behaviour, for the replay on real generated code *)
